@@ -177,11 +177,12 @@ theorem reply_low (g : Graph) (rank : Name → Nat) (R : Nat) (hr : Ranked g ran
       · exact ⟨hc1, hc2⟩
       · dsimp only
         rw [fedBack_nil g news hr.nofb]
-        have hnot : n ∉ ([] ++ dependents g x news) := by
+        have hnot : n ∉ updNames g x news := by
           intro hmem
-          simp only [List.nil_append] at hmem
-          have := hr.kid x n (mem_dependents g x news n hmem)
-          omega
+          rcases mem_updNames.1 hmem with hmem | hmem
+          · rw [fedBack_nil g news hr.nofb] at hmem; simp at hmem
+          · have := hr.kid x n (mem_dependents g x news n hmem)
+            omega
         split
         · rw [organize_node]
           have hsp := orgFold_spec g (complete { s with inflight := s.inflight.erase (x, t) } x t .success rid).targets
@@ -191,7 +192,7 @@ theorem reply_low (g : Graph) (rank : Name → Nat) (R : Nat) (hr : Ranked g ran
           exact ⟨hc1, hc2⟩
         · rw [organize_node]
           have hsp := orgFold_spec g (complete { s with inflight := s.inflight.erase (x, t) } x t .success rid).targets
-            [t] (if ([] : List Name).isEmpty then some rid else none) ([] ++ dependents g x news)
+            [t] (if ([] : List Name).isEmpty then some rid else none) (updNames g x news)
             (complete { s with inflight := s.inflight.erase (x, t) } x t .success rid).node n
           rw [hsp.2.2.2.2 hnot]
           exact ⟨hc1, hc2⟩
